@@ -725,6 +725,7 @@ fn recvseq_tagged(rc: &RCfg, from: Option<IpAddr>, list: &[Vec<u8>], unrewritten
 fn recvseq_case(rc: &RCfg, from: Option<IpAddr>, list: &[Vec<u8>], tag: &str, out: &mut Out) {
     let unrewritten_dublin4 = tag == "dublin4";
     let rewritten_dublin4 = tag == "dublin4nat";
+    let port_rewritten_dublin4 = tag == "dublin4natport";
     let input = format!("recvseq {} {} {} {tag}", rc.render(), from.map_or("-".to_string(), |a| hex(&addr_bytes(a))),
         list.iter().map(|b| hex(b)).collect::<Vec<_>>().join(","));
     let r = catch_unwind(AssertUnwindSafe(|| {
@@ -751,6 +752,16 @@ fn recvseq_case(rc: &RCfg, from: Option<IpAddr>, list: &[Vec<u8>], tag: &str, ou
                     if t[k + 6] != t[k + 7] { fails.push(format!("C19:nat_would_be_shown_on_an_unrewritten_path:datagram_{i}:expected_{}_quoted_{}", t[k + 6], t[k + 7])); }
                 }
                 _ => fails.push(format!("C02:own_response_not_recognised:datagram_{i}")),
+            }
+        }
+        if port_rewritten_dublin4 {
+            // C19: a device rewrote only the source PORT (and fixed the UDP checksum): the quoted checksum differs from the one the
+            // probe was sent with, so the first responding hop beyond the device must see a difference
+            let t: Vec<&str> = o.split('/').collect();
+            if let Some(k) = t.iter().position(|x| *x == "u") {
+                if t.len() > k + 7 && t[k + 6] == t[k + 7] {
+                    fails.push(format!("C19:source_port_rewritten_datagram_{i}_shows_no_checksum_difference:expected_{}_quoted_{}", t[k + 6], t[k + 7]));
+                }
             }
         }
         if rewritten_dublin4 {
@@ -1129,6 +1140,28 @@ pub fn run(args: &Args, out: &mut Out) {
                         list2.push(b);
                     }
                     if !list2.is_empty() { recvseq_case(&rc, None, &list2, "dublin4nat", out); n += 1; }
+                    // a device that rewrites only the source port (same address): visible to the tracer only where the source port is
+                    // not the fixed one (a response with another source port than the fixed one is not accepted at all)
+                    if let PortDirection::FixedDest(_) = c.pd {
+                        let mut list3 = vec![];
+                        for round in 0..2u16 {
+                            let seq = initseq + round * 7;
+                            let mut id = ident(c, tid, initseq, seq);
+                            id.sp = initseq + round * 7;
+                            let Some(mut d) = real_dgram(&rc, &id, size as u16, 0, 3, 7) else { continue };
+                            if d.len() < 28 { continue; }
+                            let np = id.sp ^ 0x0101;
+                            put16(&mut d, 20, np);
+                            d[26] = 0; d[27] = 0;
+                            let (src, dst) = (d[12..16].to_vec(), d[16..20].to_vec());
+                            let ck = { let u = &d[20..]; let c = inet_sum(&[&pseudo(&src, &dst, 17, u.len()), u]); if c == 0 { 0xffff } else { c } };
+                            put16(&mut d, 26, ck);
+                            let peer = rand_peer(&mut rng, c, &rc, d.len());
+                            let (b, _) = quote(false, &addr_bytes(rc.src), &peer, &d);
+                            list3.push(b);
+                        }
+                        if !list3.is_empty() { recvseq_case(&rc, None, &list3, "dublin4natport", out); n += 1; }
+                    }
                 }
             }
         }
